@@ -74,10 +74,8 @@ theorem lastOf_snoc_ne {k k' : κ} (h : k' ≠ k) (v : ν) (log : List (κ × ν
     lastOf k (log ++ [(k', v)]) = lastOf k log := by
   simp [lastOf, alookup, h]
 
-theorem advance_idem (T now : Nat) (td : TD κ ν) :
-    (td.advance T now).advance T now = td.advance T now := by
-  have h := advance_not_due T now td
-  generalize td.advance T now = x at h
+theorem advance_of_not_due {T now : Nat} {x : TD κ ν} (h : ∀ d, x.deadline = some d → now < d) :
+    x.advance T now = x := by
   unfold advance
   cases hd : x.deadline with
   | none => rfl
@@ -85,6 +83,10 @@ theorem advance_idem (T now : Nat) (td : TD κ ν) :
     have := h d hd
     simp only
     rw [if_neg (by omega)]
+
+theorem advance_idem (T now : Nat) (td : TD κ ν) :
+    (td.advance T now).advance T now = td.advance T now :=
+  advance_of_not_due (advance_not_due T now td)
 
 end
 
@@ -130,11 +132,14 @@ theorem extract_later_not_seen {T now : Nat} {c : TD Key Resp} {m : Msg}
 `extractOrInsert` does in one go -/
 theorem afterBuild_latest_eq {T now : Nat} {c : TD Key Resp} {m : Msg} {render : Msg → Outcome}
     (hf : isFresh m = true) :
-    (extractOrInsert T now c m render).1 = (afterBuild T now c m (render m) true).1 ∧
-    (extractOrInsert T now c m render).2.1 = (afterBuild T now c m (render m) true).2 ∧
+    (extractOrInsert T now c m render).1 =
+      (afterBuild T now (delIf c (blockKey m)) m (render m) true).1 ∧
+    (extractOrInsert T now c m render).2.1 =
+      (afterBuild T now (delIf c (blockKey m)) m (render m) true).2 ∧
     (extractOrInsert T now c m render).2.2 = true := by
   cases hr : render m with
   | error code => rw [extract_fresh_raised hf hr]; simp [afterBuild]
+  | junk => rw [extract_fresh_junk hf hr]; simp [afterBuild]
   | ok a =>
     rw [extract_fresh hf hr]
     by_cases hc : needsChunking m a.payload.length = true <;> simp [afterBuild, hc]
@@ -190,7 +195,7 @@ theorem carrive_cfinish_eq_step (T : Nat) (st : CState) (i : In)
         obtain ⟨e1, e2, e3⟩ := afterBuild_latest_eq (T := T) (now := i.now) (c := cacheAt T st.r i)
           (render := i.render) hf
         have hr : r = ({ st with r := { spool := (feedAndTake T i.now (spoolAt T st.r i) i.req).1,
-                                        cache := cacheAt T st.r i }
+                                        cache := delIf (cacheAt T st.r i) (blockKey m) }
                                  building := ainsert (blockKey m) st.next st.building
                                  pending := st.pending ++ [{ id := st.next, m := m, viaCache := true }]
                                  next := st.next + 1 },
@@ -208,8 +213,12 @@ theorem carrive_cfinish_eq_step (T : Nat) (st : CState) (i : In)
         simp only at hfind hfilt
         simp only [cfinish, hfind, ↓reduceIte, alookup_ainsert_self, beq_self_eq_true, hfilt,
           aerase_ainsert_absent hnb]
-        have hadv : (cacheAt T st.r i).advance T i.now = cacheAt T st.r i := by
-          unfold cacheAt; exact advance_idem _ _ _
+        have hadv : (delIf (cacheAt T st.r i) (blockKey m)).advance T i.now =
+            delIf (cacheAt T st.r i) (blockKey m) := by
+          apply advance_of_not_due
+          intro d hd
+          rw [delIf_deadline] at hd
+          unfold cacheAt at hd; exact advance_not_due _ _ _ d hd
         rw [hadv, e1, e2]
         exact ⟨rfl, rfl⟩
       · have hf' : isFresh m = false := by simpa using hf
@@ -281,6 +290,8 @@ structure OInv (st : CState) (g : Ghost) : Prop where
   for the latest request for the beginning under that key -/
   cache : ∀ k a, alookup k st.building = none → alookup k st.r.cache.items = some a →
     ∃ id, lastOf k g.started = some id ∧ alookup id g.ended = some (.ok a)
+  /-- while a request for the beginning is being built, nothing is kept under its key -/
+  dropped : ∀ k id, alookup k st.building = some id → alookup k st.r.cache.items = none
   pendingIds : ∀ p ∈ st.pending, p.id < st.next ∧ alookup p.id g.ended = none
   unique : ∀ p ∈ st.pending, ∀ q ∈ st.pending, p.id = q.id → p = q
   endedIds : ∀ x ∈ g.ended, x.1 < st.next
@@ -288,6 +299,7 @@ structure OInv (st : CState) (g : Ghost) : Prop where
 theorem oinv_init : OInv CState.init Ghost.init :=
   { building := by intro k id h; simp [CState.init, alookup] at h
     cache := by intro k a _ h; simp [CState.init, RState.init, TD.empty, alookup] at h
+    dropped := by intro k id h; simp [CState.init, alookup] at h
     pendingIds := by intro p hp; simp [CState.init] at hp
     unique := by intro p hp; simp [CState.init] at hp
     endedIds := by intro x hx; simp [Ghost.init] at hx }
@@ -302,9 +314,24 @@ theorem OInv.of_cache {st : CState} {g : Ghost} (h : OInv st g) (sp : TD Key Msg
     OInv { st with r := { spool := sp, cache := c } } g :=
   { building := h.building
     cache := fun k a hb hl => h.cache k a hb (hc k a hl)
+    dropped := fun k id hb => by
+      cases hl : alookup k c.items with
+      | none => rfl
+      | some a => have := hc k a hl; rw [h.dropped k id hb] at this; cases this
     pendingIds := h.pendingIds
     unique := h.unique
     endedIds := h.endedIds }
+
+theorem lookup_none_of_sub {k : Key} {c c' : List (Key × Resp)}
+    (hsub : ∀ a, alookup k c' = some a → alookup k c = some a) (h : alookup k c = none) :
+    alookup k c' = none := by
+  cases hl : alookup k c' with
+  | none => rfl
+  | some a => rw [hsub a hl] at h; cases h
+
+theorem advance_lookup_none {T now : Nat} {c : TD Key Resp} {k : Key} (h : alookup k c.items = none) :
+    alookup k (c.advance T now).items = none :=
+  lookup_none_of_sub (fun a hl => advance_lookup_some hl) h
 
 theorem later_lookup {T now : Nat} {c : TD Key Resp} {m : Msg} (hf : isFresh m = false)
     (r : Msg → Outcome) :
@@ -333,7 +360,8 @@ theorem carrive_oinv {T : Nat} {st : CState} {g : Ghost} (h : OInv st g) (a : Ar
     | pass m =>
       by_cases hf : isFresh m = true
       · simp only [carrive, ha, hfe, hf, ↓reduceIte, ghostStep]
-        refine { building := ?_, cache := ?_, pendingIds := ?_, unique := ?_, endedIds := ?_ }
+        refine { building := ?_, cache := ?_, dropped := ?_, pendingIds := ?_, unique := ?_,
+                 endedIds := ?_ }
         · intro k id hl
           by_cases hk : k = blockKey m
           · subst hk
@@ -350,8 +378,15 @@ theorem carrive_oinv {T : Nat} {st : CState} {g : Ghost} (h : OInv st g) (a : Ar
           by_cases hk : k = blockKey m
           · subst hk; rw [alookup_ainsert_self] at hb; cases hb
           · rw [alookup_ainsert_ne hk] at hb
-            obtain ⟨id, h1, h2⟩ := h.cache k v hb (hadv k v hl)
+            obtain ⟨id, h1, h2⟩ := h.cache k v hb (hadv k v (delIf_lookup_some hl))
             exact ⟨id, by rw [lastOf_snoc_ne (Ne.symm hk)]; exact h1, h2⟩
+        · intro k id hl
+          by_cases hk : k = blockKey m
+          · subst hk; exact delIf_lookup_self _ _
+          · rw [alookup_ainsert_ne hk] at hl
+            simp only
+            rw [delIf_lookup_ne _ hk]
+            exact advance_lookup_none (h.dropped k id hl)
         · intro p hp
           rcases List.mem_append.mp hp with hp | hp
           · have := h.pendingIds p hp; exact ⟨by simp only; omega, this.2⟩
@@ -374,11 +409,12 @@ theorem carrive_oinv {T : Nat} {st : CState} {g : Ghost} (h : OInv st g) (a : Ar
             h.of_cache _ _ (fun k v hl => hadv k v (later_lookup hf' _ k v hl))
   · have ha' : a.assemble = false := by simpa using ha
     simp only [carrive, ha', Bool.false_eq_true, ↓reduceIte, ghostStep]
-    refine { building := ?_, cache := ?_, pendingIds := ?_, unique := ?_, endedIds := ?_ }
+    refine { building := ?_, cache := ?_, dropped := ?_, pendingIds := ?_, unique := ?_, endedIds := ?_ }
     · intro k id hl
       obtain ⟨h1, h2, p, hp, h3⟩ := h.building k id hl
       exact ⟨h1, h2, ⟨p, List.mem_append_left _ hp, h3⟩⟩
     · intro k v hb hl; exact h.cache k v hb (hadv k v hl)
+    · intro k id hl; exact advance_lookup_none (h.dropped k id hl)
     · intro p hp
       rcases List.mem_append.mp hp with hp | hp
       · have := h.pendingIds p hp; exact ⟨by simp only; omega, this.2⟩
@@ -415,6 +451,7 @@ theorem afterBuild_not_latest (T now : Nat) (c : TD Key Resp) (m : Msg) (out : O
   unfold afterBuild
   cases out with
   | error code => rfl
+  | junk => rfl
   | ok a => by_cases hc : needsChunking m a.payload.length = true <;> simp [hc]
 
 theorem afterBuild_response (T now : Nat) (c : TD Key Resp) (m : Msg) (out : Outcome) (l1 l2 : Bool) :
@@ -422,6 +459,7 @@ theorem afterBuild_response (T now : Nat) (c : TD Key Resp) (m : Msg) (out : Out
   unfold afterBuild
   cases out with
   | error code => rfl
+  | junk => rfl
   | ok a => by_cases hc : needsChunking m a.payload.length = true <;> simp [hc]
 
 theorem afterBuild_latest_lookup_ne {T now : Nat} {c : TD Key Resp} {m : Msg} {out : Outcome} {k : Key}
@@ -429,22 +467,27 @@ theorem afterBuild_latest_lookup_ne {T now : Nat} {c : TD Key Resp} {m : Msg} {o
     alookup k (afterBuild T now c m out true).1.items = alookup k c.items := by
   unfold afterBuild
   cases out with
-  | error code => simp [delIf_lookup_ne c hk]
+  | error code => rfl
+  | junk => rfl
   | ok a =>
     by_cases hc : needsChunking m a.payload.length = true
     · simp [hc, TD.set, accessed_items, alookup_ainsert_ne hk]
-    · simp [hc, delIf_lookup_ne c hk]
+    · simp [hc]
 
+/-- the latest request for the beginning completes over a cache that keeps nothing under its key (it
+dropped that when it arrived): what is kept afterwards is what its handler returned -/
 theorem afterBuild_latest_lookup_self {T now : Nat} {c : TD Key Resp} {m : Msg} {out : Outcome} {a : Resp}
+    (hnone : alookup (blockKey m) c.items = none)
     (h : alookup (blockKey m) (afterBuild T now c m out true).1.items = some a) : out = .ok a := by
   unfold afterBuild at h
   cases out with
-  | error code => simp [delIf_lookup_self] at h
+  | error code => simp [hnone] at h
+  | junk => simp [hnone] at h
   | ok a' =>
     by_cases hc : needsChunking m a'.payload.length = true
     · simp [hc, TD.set, accessed_items, alookup_ainsert_self] at h
       rw [h]
-    · simp [hc, delIf_lookup_self] at h
+    · simp [hc, hnone] at h
 
 theorem find_mem {l : List Pending} {id : Nat} {p : Pending}
     (h : l.find? (fun q => q.id == id) = some p) : p ∈ l ∧ p.id = id := by
@@ -493,7 +536,10 @@ theorem cfinish_oinv {T : Nat} {st : CState} {g : Ghost} (h : OInv st g) (now id
       · -- the latest request for the beginning under its key
         have hlat' : (alookup (blockKey p.m) st.building == some id) = true := by simp [hlat]
         simp only [cfinish, hfind, hv, ↓reduceIte, hlat', ghostStep]
-        refine { building := ?_, cache := ?_, pendingIds := hpend, unique := huniq, endedIds := hended }
+        have hnone : alookup (blockKey p.m) (st.r.cache.advance T now).items = none :=
+          advance_lookup_none (h.dropped _ _ hlat)
+        refine { building := ?_, cache := ?_, dropped := ?_, pendingIds := hpend, unique := huniq,
+                 endedIds := hended }
         · refine hbuild _ ?_
           intro k id' hl
           by_cases hk : k = blockKey p.m
@@ -507,18 +553,26 @@ theorem cfinish_oinv {T : Nat} {st : CState} {g : Ghost} (h : OInv st g) (now id
         · intro k a hb hl
           by_cases hk : k = blockKey p.m
           · subst hk
-            have hout := afterBuild_latest_lookup_self hl
+            have hout := afterBuild_latest_lookup_self hnone hl
             obtain ⟨h1, _, _⟩ := h.building _ _ hlat
             exact ⟨id, h1, by rw [hout]; exact ended_append_self hidnone _⟩
           · rw [alookup_aerase_ne hk] at hb
             rw [afterBuild_latest_lookup_ne hk] at hl
             obtain ⟨id0, h1, h2⟩ := h.cache k a hb (advance_lookup_some hl)
             exact ⟨id0, h1, ended_append_some h2 _ _⟩
+        · intro k id' hl
+          by_cases hk : k = blockKey p.m
+          · subst hk; rw [alookup_aerase_self] at hl; cases hl
+          · rw [alookup_aerase_ne hk] at hl
+            simp only
+            rw [afterBuild_latest_lookup_ne hk]
+            exact advance_lookup_none (h.dropped k id' hl)
       · -- superseded: a newer request for the beginning arrived in the meantime
         have hlat' : (alookup (blockKey p.m) st.building == some id) = false := by simp [hlat]
         simp only [cfinish, hfind, hv, ↓reduceIte, hlat', Bool.false_eq_true, ghostStep,
           afterBuild_not_latest]
-        refine { building := ?_, cache := ?_, pendingIds := hpend, unique := huniq, endedIds := hended }
+        refine { building := ?_, cache := ?_, dropped := ?_, pendingIds := hpend, unique := huniq,
+                 endedIds := hended }
         · refine hbuild _ ?_
           intro k id' hl
           refine ⟨hl, ?_⟩
@@ -529,9 +583,11 @@ theorem cfinish_oinv {T : Nat} {st : CState} {g : Ghost} (h : OInv st g) (now id
         · intro k a hb hl
           obtain ⟨id0, h1, h2⟩ := h.cache k a hb (advance_lookup_some hl)
           exact ⟨id0, h1, ended_append_some h2 _ _⟩
+        · intro k id' hl; exact advance_lookup_none (h.dropped k id' hl)
     · have hv' : p.viaCache = false := by simpa using hv
       simp only [cfinish, hfind, hv', Bool.false_eq_true, ↓reduceIte, ghostStep]
-      refine { building := ?_, cache := ?_, pendingIds := hpend, unique := huniq, endedIds := hended }
+      refine { building := ?_, cache := ?_, dropped := h.dropped, pendingIds := hpend, unique := huniq,
+               endedIds := hended }
       · refine hbuild _ ?_
         intro k id' hl
         refine ⟨hl, ?_⟩
